@@ -18,7 +18,7 @@ RULE = (
     "quotient; metamorphic: mag(a*b)=mag(b*a), mag((a*b)/b)=mag(a), a op b computed twice on the same operand "
     "objects gives the model amount both times, every tree with a unit conversion evaluates identically on the "
     "long-lived database of the shard and on a freshly built one, and a battery of products matching one of its unit "
-    "pairs in both directions with exponents +-2, +-3 agrees with the model on the long-lived database, a**n == n-fold product. Also a*b, b*a, a/b, b/a, a*a, a/a, (a*b)/b with a created directly on a derived quantity that writes one quantity type in two units under two categories (m.km, m3/ft3; Scalar, list, ndarray), each computed twice. Non-trivial = some "
+    "pairs in both directions with exponents +-2, +-3 agrees with the model on the long-lived database, a**n == n-fold product. Also a*b, b*a, a/b, b/a, a*a, a/a, (a*b)/b with a created directly on a derived quantity that writes one quantity type in two units under two categories (m.km, m3/ft3; Scalar, list, ndarray), each computed twice; products and quotients of two Arrays in different container kinds (list, tuple, float64 / int64 / float32 ndarray). Non-trivial = some "
     "operand is converted (shared type, different units) with exponent != 1, or >= 3 leaves; distinct key = tree."
 )
 ASSUMPTIONS = ["UnitModel slopes come from single-unit float conversions (validated by C01)", "**0 and negative powers are outside the statement"]
@@ -346,6 +346,11 @@ class Checker:
             ("a*a", lambda: a * a, ma * ma, dims_mul(da, da, 1)),
             ("a/a", lambda: a / a, 1.0, {}),
             ("(a*b)/b", lambda: (a * b) / b, ma, da),
+        ) + (
+            # a**n is the n-fold product (Scalars only: Array defines no ** operator)
+            (("a**2", lambda: a**2, ma * ma, dims_mul(da, da, 1)), ("a**3", lambda: a**3, ma * ma * ma, dims_mul(dims_mul(da, da, 1), da, 1)))
+            if kind == "scalar"
+            else ()
         ):
             r = fn()
             ctx.ev()
@@ -364,6 +369,48 @@ class Checker:
             v2 = r2.GetValue() if kind == "scalar" else float(list(r2.GetValues())[0])
             if v2 != v0 or repr(r2.GetQuantity()) != repr(q):
                 ctx.fail("product_not_repeatable:mixed_unit_operand", case, "%s computed twice on the same operands gives %r and then %r" % (what, r, r2))
+
+    def check_container_mix(self, case):
+        """two Arrays in different container kinds, one of them possibly an integer ndarray: the amounts of either
+        operand are what they are, whatever container or dtype its partner has"""
+        from barril.units import Array
+
+        ctx, db, um = self.ctx, self.db, self.um
+        (ua, ca, ka, va), (ub, cb, kb, vb) = case["a"], case["b"]
+        if ka in ("ndarray_int", "ndarray_i32"):
+            va = [float(round(x)) or 1.0 for x in va]
+        if kb in ("ndarray_int", "ndarray_i32"):
+            vb = [float(round(x)) or 1.0 for x in vb]
+        n = min(len(va), len(vb))
+        va, vb = va[:n], vb[:n]
+        a = Array(gen.as_container(ka, va), ua, ca)
+        b = Array(gen.as_container(kb, vb), ub, cb)
+        ctx.cls("operands_in_different_containers" if ka != kb else "operands_in_one_container_kind")
+        ctx.nontrivial(("containers", ua, ub, ka, kb), case)
+        da, dbb = {um.qt[ua]: 1}, {um.qt[ub]: 1}
+        for what, fn, md, mag in (
+            ("a*b", lambda: a * b, dims_mul(da, dbb, 1), lambda x, y: x * um.slope[ua] * y * um.slope[ub]),
+            ("b*a", lambda: b * a, dims_mul(da, dbb, 1), lambda x, y: x * um.slope[ua] * y * um.slope[ub]),
+            ("a/b", lambda: a / b, dims_mul(da, dbb, -1), lambda x, y: (x * um.slope[ua]) / (y * um.slope[ub])),
+            ("b/a", lambda: b / a, dims_mul(dbb, da, -1), lambda x, y: (y * um.slope[ub]) / (x * um.slope[ua])),
+        ):
+            r = fn()
+            ctx.ev()
+            q = r.GetQuantity()
+            if dims_of_quantity(db, q) != md:
+                ctx.fail("dims_wrong:container_mix", case, "%s with a=%r, b=%r has exponents %r, model %r" % (what, a, b, dims_of_quantity(db, q), md))
+            got = [float(t) for t in r.GetValues()]
+            if len(got) != n:
+                ctx.fail("length_changed", case, "%s: %d values from operands of %d" % (what, len(got), n))
+            for x, y, g in zip(va, vb, got):
+                mm = mag(x, y)
+                if "f32" in ka + kb and not (1e-30 < abs(g) < 1e30):
+                    ctx.cls("skipped_outside_float32_range")
+                    continue
+                # (a float32 operand keeps the arithmetic in float32: seven digits)
+                if math.isfinite(mm) and 1e-250 < abs(mm) < 1e250 and not relclose(mag_of(um, q, g), mm, 1e-5 if "f32" in ka + kb else 1e-9):
+                    ctx.fail("magnitude_wrong:container_mix:%s_%s" % tuple(sorted((ka, kb))), case, "%s with a=%r, b=%r = %r: element %r is %r in base units, model %r" % (what, a, b, r, g, mag_of(um, q, g), mm))
+                    break
 
     def _first_floor(self, t):
         if t[0] == "leaf":
@@ -434,6 +481,28 @@ def _mixed_strategy(ch):
     return case()
 
 
+def _container_mix_strategy(ch):
+    pool = ch.pool
+    kinds = st.sampled_from(["list", "tuple", "ndarray", "ndarray_int", "ndarray_f32", "ndarray_int"])
+
+    @st.composite
+    def operand(draw, qt):
+        return [draw(st.sampled_from(pool.units[qt])), draw(st.sampled_from(pool.cats[qt])), draw(kinds), draw(st.lists(gen.moderate_values(1e-2, 1e2), min_size=1, max_size=3))]
+
+    @st.composite
+    def case(draw):
+        qta = draw(pool.qt_strategy())
+        qtb = draw(st.sampled_from([qta, qta, draw(pool.qt_strategy())]))
+        a, b = draw(operand(qta)), draw(operand(qtb))
+        if "f32" in a[2] or "f32" in b[2]:
+            # float32 holds 7 digits: keep the amounts exactly representable there
+            a[3] = [float(round(x * 4) / 4) or 0.25 for x in a[3]]
+            b[3] = [float(round(x * 4) / 4) or 0.25 for x in b[3]]
+        return {"container_mix": True, "a": a, "b": b}
+
+    return case()
+
+
 def _fix_tree(t):
     if isinstance(t, (list, tuple)):
         if t and t[0] == "leaf":
@@ -470,6 +539,16 @@ def run_shard(spec, ctx):
             return test
 
         core.hunt(ctx, mk2, spec["seed"] * 1000 + spec["shard"] + 500, max(100, spec["n"] // 6))
+        mix = _container_mix_strategy(ch)
+
+        def mk3():
+            @given(mix)
+            def test(case):
+                core.guarded(ctx, ch.check_container_mix, case)
+
+            return test
+
+        core.hunt(ctx, mk3, spec["seed"] * 1000 + spec["shard"] + 700, max(100, spec["n"] // 6))
 
 
 def replay(case, ctx):
@@ -478,5 +557,7 @@ def replay(case, ctx):
         ch = Checker(ctx, db)
         if case.get("mixed"):
             return core.replay_guarded(ctx, ch.check_mixed, case)
+        if case.get("container_mix"):
+            return core.replay_guarded(ctx, ch.check_container_mix, case)
         case = {"tree": _fix_tree(case["tree"]), "kind": case["kind"]}
         return core.replay_guarded(ctx, ch.check_tree, case)
